@@ -89,6 +89,40 @@ def _case_diag(T, tree, ks, algs):
             T.check(f"{tag}:!exception", False, f"{type(e).__name__}: {e}"[:300])
 
 
+def case_auto_selection(T, n):
+    """which algorithm the automatic default (no tolerance given) runs on a rule-less n x n operator: it must be the exact one for every size
+    within the bound (its documented switch is tol < 1 / sqrt(10 n^2), i.e. n < 3.16e5 at the default 1e-6).  Both estimators are replaced by
+    markers, the operator is never applied."""
+    import importlib
+    de = importlib.import_module("cola.linalg.trace.diagonal_estimation")
+    o1, o2 = de.exact_diag, de.hutchinson_diag_estimate
+    picked = []
+    de.exact_diag = lambda A, k, bs, *a, **kw: picked.append("exact") or np.zeros(A.shape[0] - abs(k))
+    de.hutchinson_diag_estimate = lambda A, k, *a, **kw: (picked.append("stochastic") or np.zeros(A.shape[0] - abs(k)), {})
+
+    def never(X):
+        raise AssertionError("operator applied")
+    A = cola.ops.LinearOperator(np.dtype('float64'), (n, n), matmat=never)
+    try:
+        for tag, call in (("diag(A)", lambda: cola.linalg.diag(A)), ("diag(A, 1)", lambda: cola.linalg.diag(A, 1)),
+                          ("diag(A, 0, Auto())", lambda: cola.linalg.diag(A, 0, cola.linalg.Auto())), ("trace(A)", lambda: cola.linalg.trace(A)),
+                          ("trace(A, Auto())", lambda: cola.linalg.trace(A, cola.linalg.Auto())),
+                          ("diag(A + A)", lambda: cola.linalg.diag(ops_sum(A)))):
+            del picked[:]
+            try:
+                call()
+            except Exception as e:
+                T.check(f"{tag}:!exception", False, f"{type(e).__name__}: {e}"[:200])
+                continue
+            T.check(f"{tag}: automatic default runs the exact algorithm", picked and set(picked) == {"exact"}, f"ran {picked}")
+    finally:
+        de.exact_diag, de.hutchinson_diag_estimate = o1, o2
+
+
+def ops_sum(A):
+    return cola.ops.Sum(A, A)
+
+
 def _contains_refuser(tree):
     if not isinstance(tree, list):
         return False
@@ -125,6 +159,11 @@ def cases(tier, seed):
     for t in small + comp:
         n = tree_shape(t)[0]
         out.append((f"all-k:{tree_name(t)}", case_diag, dict(tree=t, ks=list(range(-(n - 1), n)), algs=["exact", "auto", "omitted"])))
+    # seeded random square trees of depth <= 3 (8 fixed samples, selected by VERIF_SEED mod 8): every offset, exact / automatic / omitted algorithm
+    from .common import random_trees
+    for t in random_trees(3000 + seed % 8, 20 if tier == "quick" else 600, square=True):
+        n = tree_shape(t)[0]
+        out.append((f"r:{tree_name(t)}", case_diag, dict(tree=t, ks=list(range(-(n - 1), n)), algs=["exact", "omitted"])))
     # sizes around the probing block size (rule-less operators so that exact_diag runs); banded symbolic payload
     big = [(101, [0, 1, -1, 99, -99, 100, -100]), (205, [0, 1, -1, 100, -100, 204, -204, 105]), (100, [0, 1, -1, 99, -99]), (200, [0, -1, 100])]
     if tier == "quick":
@@ -137,6 +176,9 @@ def cases(tier, seed):
     out.append(("big:generic(tridiag320)[auto]", case_diag, dict(tree=G(["tridiag", 320, F8]), ks=[0], algs=["auto"]), dict(validate=False)))
     out.append(("big:sum(generic(tridiag130),scalar130)", case_diag,
                 dict(tree=["sum", G(["tridiag", 130, F8]), ["scalar", 130, F8]], ks=[0, 1], algs=["exact"]), dict(validate=False)))
+    for n in (101, 562, 563, 600, 1000, 4096, 100000, 300000):
+        out.append((f"auto-selection:n{n}", case_auto_selection, dict(n=n)))
+    out.append(("big:generic(tridiag200)[k=-1]", case_diag, dict(tree=G(["tridiag", 200, F8]), ks=[-1], algs=["exact"]), dict(validate=False)))
     out.append(("big:dense210", case_diag, dict(tree=["diag", 210, F8], ks=[0, 3], algs=["auto"]), dict(validate=False)))
     return out
 
